@@ -9,6 +9,9 @@ def check(ctx):
     check_band_mask(ctx)
     from ..dispatch import check_cache_keys
     check_cache_keys(ctx, rule="R6-memo-key-complete", files=("speckit/noise.py",))
+    # a memoised design table is shared by every generator with the same parameters: nobody may rescale it in place
+    from ..effects import check_memoised_results_not_mutated
+    check_memoised_results_not_mutated(ctx, "R7-memoised-design-not-updated-in-place", ("speckit/noise.py",))
     ctx.trust("L9 bilinear map of (s+w1)/(s+w0)", "L11 Hermitian spectrum => real inverse FFT; unit phasors keep |F|", "Plaszczynski corner placement")
     ctx.assume("exact arithmetic; the 1 dB accuracy of the cascade is not decided", "mirror-slice algebra is decided on the instances N = 2..9")
     return ("alpha_noise's constructor is interpreted symbolically: section count ceil(4.5*(log10 w_max-log10 w_min)), pole/zero corners 10^(log w_min + dp(i+1/2-alpha/4) [+dp*alpha/2])/2pi, "
